@@ -1,2 +1,187 @@
-(* placeholder until the proofs land *)
-From Sccache Require Import Model.Client.
+(* Properties/C11.v — pinned statements for property C11:
+   "Losing the server mid-request degrades to a correct local compile".
+   Model: Model/Client.v (byte-level client decision function and server frame decoder);
+   proofs: Proofs/Client.v.  `opq` is the oracle for the three responses that cannot occur in a
+   compile exchange; every statement holds for every oracle.
+   PARTIAL with respect to the property text in one respect only: which `ending` (clean EOF, reset, other
+   I/O error) the kernel presents for a lost server is an input here; the kill leg of the check observes
+   that a SIGKILLed server yields EOF. *)
+From Coq Require Import List NArith Bool.
+From Sccache Require Import Model.Client Proofs.Client.
+Import ListNotations.
+Local Open Scope N_scope.
+
+(* For EVERY response stream (any bytes, any ending), either switch setting and any compiler status: exit
+   status 0 happens only (a) after both frames CompileStarted and CompileFinished were received completely and
+   the CompileFinished itself carries status 0, or (b) after the client ran the original command itself and
+   that run returned 0.  Everything else is the local compiler's own non-zero status or exit 2. *)
+Theorem C11_never_false_success :
+  forall (opq : N -> list N -> bool) (ignore_io : bool) (bytes : list N) (e : ending) (local : N),
+    exit_code (client opq ignore_io bytes e) local = 0 ->
+    (exists p1 r1 p2 r2 f,
+        framed bytes p1 r1 /\ decode_response opq p1 = Some (RCompile CompileStarted) /\
+        framed r1 p2 r2 /\ decode_response opq p2 = Some (RFinished f) /\
+        client opq ignore_io bytes e = ReturnFinished f /\ finished_exit f = 0)
+    \/ (exists w, client opq ignore_io bytes e = RunLocally w /\ local = 0).
+Proof. exact never_false_success. Qed.
+Print Assumptions C11_never_false_success.
+
+(* Server lost (clean EOF) anywhere after the acknowledgement and before the end of the second frame: the
+   client runs the original command and returns ITS status — with or without the switch. *)
+Theorem C11_eof_after_ack_falls_back :
+  forall opq ignore_io bytes p1 rest local,
+    framed bytes p1 rest ->
+    decode_response opq p1 = Some (RCompile CompileStarted) ->
+    cut_short rest = true ->
+    client opq ignore_io bytes Eof = RunLocally LEofAfterAck /\
+    exit_code (client opq ignore_io bytes Eof) local = local.
+Proof. exact eof_after_ack. Qed.
+Print Assumptions C11_eof_after_ack_falls_back.
+
+(* The same on the wire: a server that dies after writing ANY proper prefix (k bytes, every k) of its
+   CompileFinished frame. *)
+Theorem C11_killed_while_answering :
+  forall opq ignore_io f (k : nat) local,
+    blen (encode_finished f) < 4294967296 ->
+    (k < length (frame (encode_finished f)))%nat ->
+    client opq ignore_io (frame (encode_compile_response CompileStarted) ++ firstn k (frame (encode_finished f))) Eof
+    = RunLocally LEofAfterAck /\
+    exit_code (client opq ignore_io
+                 (frame (encode_compile_response CompileStarted) ++ firstn k (frame (encode_finished f))) Eof) local
+    = local.
+Proof. exact killed_while_answering. Qed.
+Print Assumptions C11_killed_while_answering.
+
+(* Lost after the acknowledgement in any other way (reset / other I/O error before the second frame is
+   complete, or a second frame that does not decode): local compile iff SCCACHE_IGNORE_SERVER_IO_ERROR=1,
+   otherwise the non-zero sccache error.  (This is where the code deviates from the property's first sentence
+   and relies on its second: a reset is an error, not a fallback, unless the switch is on.) *)
+Theorem C11_io_error_after_ack :
+  forall opq (ignore_io : bool) bytes p1 rest e,
+    framed bytes p1 rest ->
+    decode_response opq p1 = Some (RCompile CompileStarted) ->
+    (cut_short rest = true /\ e <> Eof) \/
+    (exists p2 r2, framed rest p2 r2 /\ decode_response opq p2 = None) ->
+    client opq ignore_io bytes e = (if ignore_io then RunLocally LIgnoredError else SccacheError EAfterAck).
+Proof. exact io_error_after_ack. Qed.
+Print Assumptions C11_io_error_after_ack.
+
+(* Lost BEFORE the acknowledgement (the first frame is incomplete), whatever the ending and the switch:
+   no fallback; the client exits 2 with an sccache error — consistent with "either delivers the compiler's
+   true result or exits non-zero". *)
+Theorem C11_lost_before_ack :
+  forall opq ignore_io bytes e local,
+    cut_short bytes = true ->
+    client opq ignore_io bytes e = SccacheError EBeforeAck /\
+    exit_code (client opq ignore_io bytes e) local = 2.
+Proof. exact lost_before_ack. Qed.
+Print Assumptions C11_lost_before_ack.
+
+(* Nothing is lost needlessly: once both frames are in, the result is delivered however the stream ends. *)
+Theorem C11_complete_exchange_delivered :
+  forall opq ignore_io f tail e,
+    wf_finished f -> blen (encode_finished f) < 4294967296 ->
+    client opq ignore_io
+      (frame (encode_compile_response CompileStarted) ++ frame (encode_finished f) ++ tail) e
+    = ReturnFinished f.
+Proof. exact exchange_on_the_wire. Qed.
+Print Assumptions C11_complete_exchange_delivered.
+
+(* Server side.  The decoder state depends on the bytes, not on how they were cut into reads. *)
+Theorem C11_chunking_irrelevant :
+  forall cap c chunks1 chunks2,
+    concat chunks1 = concat chunks2 ->
+    fold_left (feed cap) chunks1 c = fold_left (feed cap) chunks2 c.
+Proof. exact chunking_irrelevant. Qed.
+Print Assumptions C11_chunking_irrelevant.
+
+(* For every interleaving of chunks over any number of connections: the state of a connection (decoder state,
+   requests handed to the service, open/closed) is a function of THAT connection's bytes only. *)
+Theorem C11_connection_isolation :
+  forall cap (evs : list (N * list N)) id,
+    srv_get (srv_run cap evs) id = feed cap conn_init (conn_bytes evs id).
+Proof. exact connection_isolation. Qed.
+Print Assumptions C11_connection_isolation.
+
+(* The server stops only if some connection carried a complete in-cap frame decoding as Shutdown (after frames
+   that all decoded).  Garbage, oversized prefixes and truncated frames never do. *)
+Theorem C11_only_shutdown_stops_the_server :
+  forall cap evs,
+    srv_shutdown (srv_run cap evs) = true ->
+    exists id fs f post,
+      conn_bytes evs id = flat fs ++ wire f ++ post /\
+      Forall (wf_wframe cap) fs /\ wf_wframe cap f /\
+      decode_request (snd f) = Some ReqShutdown.
+Proof. exact only_shutdown_stops_the_server. Qed.
+Print Assumptions C11_only_shutdown_stops_the_server.
+
+(* Every byte string is: complete in-cap frames that all decode (exactly the requests handed on, in order),
+   followed by a proper prefix of a frame (connection open, waiting) | an oversized length prefix (closed) |
+   one undecodable frame and ignored bytes (closed). *)
+Theorem C11_frame_decoder_total :
+  forall cap bytes,
+    exists fs rest,
+      bytes = flat fs ++ rest /\ Forall (wf_wframe cap) fs /\
+      map (fun f => decode_request (snd f)) fs = map Some (rev (c_reqs (feed cap conn_init bytes))) /\
+      ( (conn_closed (feed cap conn_init bytes) = false /\ incomplete cap rest = true)
+        \/ (c_state (feed cap conn_init bytes) = Closed FrameTooBig /\ oversized cap rest = true)
+        \/ (c_state (feed cap conn_init bytes) = Closed BadMessage /\
+            exists bad tail, rest = wire bad ++ tail /\ wf_wframe cap bad /\ decode_request (snd bad) = None) ).
+Proof. exact frame_decoder_total. Qed.
+Print Assumptions C11_frame_decoder_total.
+
+(* ---------- non-vacuity ---------- *)
+
+Definition ex_opq (_ : N) (_ : list N) : bool := false.
+Definition ex_fin : finished :=
+  {| f_retcode := Some 0; f_signal := None; f_stdout := [104; 105]; f_stderr := [119]; f_color := 2 |}.
+Definition ex_ack : list N := frame (encode_compile_response CompileStarted).
+
+Example ex_wf : wf_finished ex_fin /\ blen (encode_finished ex_fin) < 4294967296.
+Proof. unfold wf_finished; simpl; repeat split; reflexivity. Qed.
+
+Example ex_full_exchange :
+  client ex_opq false (ex_ack ++ frame (encode_finished ex_fin)) Reset = ReturnFinished ex_fin.
+Proof. vm_compute. reflexivity. Qed.
+
+Example ex_cut_in_second_frame :
+  client ex_opq false (ex_ack ++ firstn 9 (frame (encode_finished ex_fin))) Eof = RunLocally LEofAfterAck
+  /\ cut_short (firstn 9 (frame (encode_finished ex_fin))) = true
+  /\ framed ex_ack (encode_compile_response CompileStarted) [].
+Proof.
+  split; [vm_compute; reflexivity|]. split; [vm_compute; reflexivity|].
+  exists 0, 0, 0, 8. split; reflexivity.
+Qed.
+
+Example ex_reset_is_an_error_unless_ignored :
+  client ex_opq false (ex_ack ++ [0; 0]) Reset = SccacheError EAfterAck /\
+  client ex_opq true (ex_ack ++ [0; 0]) Reset = RunLocally LIgnoredError /\
+  exit_code (client ex_opq false (ex_ack ++ [0; 0]) Reset) 0 = 2.
+Proof. vm_compute. repeat split; reflexivity. Qed.
+
+Example ex_before_ack : cut_short (firstn 11 ex_ack) = true /\
+  client ex_opq true (firstn 11 ex_ack) Eof = SccacheError EBeforeAck.
+Proof. vm_compute. split; reflexivity. Qed.
+
+(* garbage on connection 1 (oversized prefix), a truncated frame on 3, valid GetStats on 2, interleaved *)
+Definition ex_evs : list (N * list N) :=
+  [ (2, [0; 0]); (1, [255; 255; 255; 255; 1]); (3, [0; 0; 0; 9; 1]); (2, [0; 4; 1; 0]); (1, [7; 7]); (2, [0; 0]) ].
+
+Example ex_isolation :
+  c_reqs (srv_get (srv_run 8388608 ex_evs) 2) = [ReqGetStats] /\
+  c_state (srv_get (srv_run 8388608 ex_evs) 1) = Closed FrameTooBig /\
+  conn_closed (srv_get (srv_run 8388608 ex_evs) 3) = false /\
+  srv_shutdown (srv_run 8388608 ex_evs) = false.
+Proof. vm_compute. repeat split; reflexivity. Qed.
+
+Example ex_shutdown_is_reachable :
+  srv_shutdown (srv_run 8388608 [(1, [0; 0; 0; 4; 3; 0; 0; 0])]) = true /\
+  wf_wframe 8388608 ([0; 0; 0; 4], [3; 0; 0; 0]).
+Proof.
+  split; [vm_compute; reflexivity|]. exists 0, 0, 0, 4. repeat split; vm_compute; congruence.
+Qed.
+
+Example ex_undecodable_closes_only_itself :
+  c_state (feed 8388608 conn_init [0; 0; 0; 4; 9; 9; 9; 9; 0; 0; 0; 4; 1; 0; 0; 0]) = Closed BadMessage /\
+  c_reqs (feed 8388608 conn_init [0; 0; 0; 4; 9; 9; 9; 9; 0; 0; 0; 4; 1; 0; 0; 0]) = [].
+Proof. vm_compute. split; reflexivity. Qed.
